@@ -195,6 +195,9 @@ def gen_e2e(tier, seed):
         for fmt, ext in (('geojson', '.geojson'), ('geojson', '.json'), ('wkt', '.wkt'), ('wkb', '.wkb'), ('shapefile', '.shp')):
             yield {'op': 'export', 'spec': spec, 'format': fmt, 'ext': ext, 'explicit': False}
             yield {'op': 'export', 'spec': spec, 'format': fmt, 'ext': '.dat', 'explicit': True}
+        # an output name with a dot in its stem: the files written are the ones named
+        yield {'op': 'export', 'spec': spec, 'format': 'shapefile', 'ext': '.shp', 'explicit': False, 'stem': 'mesh.v2'}
+        yield {'op': 'export', 'spec': spec, 'format': 'wkt', 'ext': '.wkt', 'explicit': False, 'stem': 'grid_2024.01'}
         yield {'op': 'export', 'spec': spec, 'format': None, 'ext': '.topojson', 'explicit': False}
         yield {'op': 'export', 'spec': spec, 'format': None, 'ext': '', 'explicit': False}
     yield {'op': 'clip-bad', 'spec': E2E_SPECS[0], 'clip': '1,2,3'}
@@ -331,7 +334,7 @@ def _test_e2e(inp, tmp):
         finally:
             ds.close()
     if op == 'export':
-        out = os.path.join(tmp, 'geom' + inp['ext'])
+        out = os.path.join(tmp, inp.get('stem', 'geom') + inp['ext'])
         argv = ['export-geometry', src, out]
         if inp['explicit']:
             argv += ['-f', inp['format']]
@@ -353,6 +356,9 @@ def _test_e2e(inp, tmp):
             ds.close()
         if inp['format'] == 'shapefile':
             import shapefile
+            missing = [e for e in ('.shp', '.shx', '.dbf') if not os.path.exists(os.path.splitext(out)[0] + e)] if out.endswith('.shp') else []
+            if missing:
+                return f'export-geometry {os.path.basename(out)}: the files {missing} with that base name were not written (found {sorted(os.listdir(tmp))})'
             a, b = shapefile.Reader(out if out.endswith('.shp') else out), shapefile.Reader(ref)
             if len(a) != len(b) or [s.points for s in a.shapes()] != [s.points for s in b.shapes()] \
                     or [list(r) for r in a.records()] != [list(r) for r in b.records()]:
